@@ -135,6 +135,9 @@ async fn main() {
                 println!("; name does not exist");
                 print_section("AUTHORITY", &[soa_rr]);
             }
+            ResolvedRecord::Delegation { ns_rrs } => {
+                print_section("AUTHORITY", &ns_rrs);
+            }
             ResolvedRecord::NonAuthoritative { rrs, soa_rr } => {
                 print_section("ANSWER", &rrs);
                 if let Some(soa_rr) = soa_rr {
